@@ -45,7 +45,7 @@ package sstls
 //@   ghost stage int = 0
 //@   on call GetCertificate(sub, d, ip, life, cf) (c, e): assert(stage == 0 && cf == certFile, "certificate_from_the_configured_cache"); cert = c; certErr = e != nil; stage = 1
 //@   on call PubkeyFingerprintTLS(c) (f, e): assert(stage == 1 && !certErr && c == cert, "fingerprint_of_the_certificate_obtained"); fpv = f; fpErr = e != nil; stage = 2
-//@   on call tls.Listen(n, a, conf) (li, e): assert(stage == 2 && !fpErr && len(conf.Certificates) == 1 && conf.Certificates[0] == cert && n == net && a == address, "tls_serves_exactly_the_fingerprinted_certificate"); ln = li; lnErr = e != nil; stage = 3
+//@   on call tls.Listen(n, a, conf) (li, e): assert(stage == 2 && !fpErr && len(conf.Certificates) == 1 && conf.Certificates[0] == cert && n == net && a == address, "tls_serves_exactly_the_fingerprinted_certificate"); assert(conf.GetCertificate == nil && conf.GetConfigForClient == nil && conf.NameToCertificate == nil, "no_callback_or_table_can_pick_another_certificate_at_handshake_time"); ln = li; lnErr = e != nil; stage = 3
 //@   ensures usable: imp(err == nil, l.Listener != nil)
 //@   ensures errors: imp(certErr || fpErr || lnErr, err != nil)
 //@   ensures listener: imp(!certErr && !fpErr && !lnErr, err == nil && stage == 3 && l.Fingerprint == fpv && l.Listener == ln && l.Listener != nil)
